@@ -20,6 +20,8 @@ func init() {
 				{Harness: "enc.fatal", Mode: "plain", Shards: 4, MaxRSS: 2048},
 				{Harness: "c01.floats", Mode: "plain", Shards: 16},
 				{Harness: "c01.windows", Mode: "plain", Shards: 2},
+				{Harness: "c01.deep", Mode: "plain", Shards: 8, GC: "on", MaxRSS: 3072},
+				{Harness: "c01.passthrough", Mode: "plain", Shards: 8},
 			}
 		},
 	})
